@@ -414,6 +414,17 @@ def rule_bfgsform(ctx: Ctx) -> List[Ob]:
                 K.stmt(s)
             except AnalysisError:
                 pass
+    # who may write the scaling: only the accepted / forced update (a rejected pair leaves theta, W and the factors as they are)
+    inside_ = {id(x) for b_ in body for x in ast.walk(b_)}
+    stray = [s_ for s_ in walk_no_nested(f.node) if isinstance(s_, (ast.Assign, ast.AugAssign, ast.AnnAssign))
+             and any(isinstance(t_, ast.Attribute) and t_.attr == "theta" for t_ in (s_.targets if isinstance(s_, ast.Assign) else [s_.target]))
+             and id(s_) not in inside_]
+    for s_ in stray:
+        obs.append(ob("BFGSFORM", "theta is only updated together with the accepted pair", f, s_, False,
+                      f"`{short(s_, 70)}` lies outside the accepted / forced update: after a rejected pair theta no longer matches W and the factors of M",
+                      construct=f"stray write {short(s_, 50)}"))
+    if stray and th is None:
+        return obs
     need(th is not None, "BFGSFORM: assignment of mats.theta not found")
     yv = Vec({"g1": 1, "g0": -1})
     sv = Vec({"x1": 1, "x0": -1})
